@@ -209,6 +209,7 @@ fn scenario(seed: u64, k: u64, out: &Out) {
     let mut model: VecDeque<(Byte32, u64)> = VecDeque::new(); // FIFO pool model (hash, cycles)
     let mut rejected: Vec<Byte32> = vec![];
     let mut evicted: Vec<Byte32> = vec![];
+    let mut resubmitted: HashSet<Byte32> = HashSet::new();
     let mut announced: HashMap<(usize, Byte32), u32> = HashMap::new();
     let long = rng.chance(1, 4);
     let n_sub = rng.range(10, if long { 220 } else { 40 });
@@ -216,6 +217,22 @@ fn scenario(seed: u64, k: u64, out: &Out) {
     for step in 0..n_sub {
         if w.dead || violated {
             break;
+        }
+        // a user retries a transaction that is already pending: accepted again, still one pool entry
+        if !model.is_empty() && rng.chance(1, 10) {
+            let (h, cyc) = model[rng.pick_idx(model.len())].clone();
+            let jtx: Option<ckb_jsonrpc_types::Transaction> = w.c().pending.read().ok().and_then(|p| p.get(&h)).map(|(t, _, _)| t.into());
+            if let Some(jtx) = jtx {
+                let r = guarded(|| w.c().rpc_tx().send_transaction(jtx.clone()));
+                out.eval(1);
+                out.cell(&format!("resubmit|ok={}", matches!(r, Ok(Ok(_)))));
+                if let Ok(Ok(_)) = r {
+                    // FIFO position: a retried transaction counts as the newest entry
+                    model.retain(|(x, _)| *x != h);
+                    model.push_back((h.clone(), cyc));
+                    resubmitted.insert(h.clone());
+                }
+            }
         }
         // a valid base transaction (sometimes spending the output of a pending one)
         let n_in = rng.range(1, 2) as usize;
@@ -378,7 +395,8 @@ fn scenario(seed: u64, k: u64, out: &Out) {
                                 *e += 1;
                                 if *e > 1 && !violated {
                                     violated = true;
-                                    out.violation("C18.R4", "C18|hash-announced-twice-to-one-peer", json!({"scenario": desc}), k);
+                                    let how = if resubmitted.contains(&hh.to_entity()) { "|after-resubmission" } else { "" };
+                                    out.violation("C18.R4", &format!("C18|hash-announced-twice-to-one-peer{}", how), json!({"scenario": desc}), k);
                                 }
                                 if rejected.contains(&hh.to_entity()) && !violated {
                                     violated = true;
